@@ -531,6 +531,45 @@ fn compile(text: &str, opts: Opts) -> Option<Compiled> {
     Some(Compiled { text: text.to_string(), opts, glob, matcher })
 }
 
+/// Sets built from *related* globs: every substring of a base word as a
+/// whole-path literal, prefix (`s*`, `s/**`), suffix (`*s`), basename
+/// (`**/s`) and extension (`*.s`) glob. Literals that contain or overlap each
+/// other are what the multi-pattern strategies (Aho-Corasick based prefix and
+/// suffix tables, basename and extension maps) have to keep apart.
+pub fn family_globs(rng: &mut Rng) -> Vec<String> {
+    let n = rng.range(2, 5);
+    let word: Vec<u8> = (0..n).map(|_| rng.pick(b"abab.-A/")).collect();
+    let mut subs: Vec<String> = vec![];
+    for i in 0..word.len() {
+        for j in i + 1..=word.len() {
+            let s = String::from_utf8_lossy(&word[i..j]).into_owned();
+            if !subs.contains(&s) {
+                subs.push(s);
+            }
+        }
+    }
+    let mut out = vec![];
+    for s in &subs {
+        let forms = [
+            s.clone(),
+            format!("{}*", s),
+            format!("*{}", s),
+            format!("**/{}", s),
+            format!("*.{}", s),
+            format!("{}/**", s),
+            format!("*{}*", s),
+        ];
+        for f in forms.iter() {
+            if rng.chance(1, 2) && !f.contains("//") && !f.contains("/**/**") {
+                out.push(f.clone());
+            }
+        }
+    }
+    rng.shuffle(&mut out);
+    out.truncate(24);
+    out
+}
+
 pub fn run(ctx: &Ctx) -> Report {
     let thorough = ctx.is_thorough();
     let (max_tokens, ntok, path_len) = if thorough { (4, 16, 6) } else { (3, 16, 5) };
@@ -550,10 +589,20 @@ pub fn run(ctx: &Ctx) -> Report {
         };
         let opts = Opts::from_bits(optbits);
         let bi = (i / 4) % nblocks;
-        let mut comp: Vec<Compiled> = globs[bi * block..((bi + 1) * block).min(globs.len())]
+        let family = i % 3 == 2;
+        let source: Vec<String> = if family {
+            rep.count("family_sets");
+            family_globs(rng)
+        } else {
+            globs[bi * block..((bi + 1) * block).min(globs.len())].to_vec()
+        };
+        let mut comp: Vec<Compiled> = source
             .iter()
             .filter_map(|g| {
-                let c = compile(g, opts);
+                // family sets mostly use the default options, where the
+                // literal strategies are eligible
+                let o = if family && rng.chance(3, 4) { Opts::from_bits(0) } else { opts };
+                let c = compile(g, o);
                 if c.is_none() {
                     rep.count("globs_rejected");
                 }
